@@ -87,6 +87,37 @@ __CPROVER_ensures(OLD((*item_ref)->refcount) > 1 ? *item_ref == OLD(*item_ref) :
  * element's node header is valid; whatever else its release touches lies inside the element's own subtree,
  * which the parent never accesses (hereditary validity, A1) - so only the header and the ghosts are in the
  * frame.  Used with --replace-call-with-contract cbor_intermediate_decref/cbor_intermediate_decref__child. */
+/* Release of a node the caller owns alone and that has no children yet (what the opener callbacks do when the
+ * stack refuses the frame): a consequence of the per-kind steps decref_* (which assert it: "childless release"),
+ * stated with a small frame so that callers need not evaluate the general contract's conditional targets. */
+#define CHILDLESS(it)                                                                            \
+  (((it)->type != CBOR_TYPE_ARRAY || AR_META(it).end_ptr == 0) && ((it)->type != CBOR_TYPE_MAP || MP_META(it).end_ptr == 0) && \
+   ((it)->type != CBOR_TYPE_TAG || TG_META(it).tagged_item == NULL) &&                           \
+   (!IS_CHUNKED(it) || (CHUNKS(it)->chunk_count == 0 && CHUNKS(it)->chunks == NULL)))
+void cbor_decref__childless(cbor_item_t **item_ref)
+__CPROVER_requires(ALLOC_MODEL_BOUND && __CPROVER_rw_ok(item_ref, sizeof(cbor_item_t *)) && ITEM_RW(*item_ref) &&
+                   (*item_ref)->refcount == 1 && HEAP_BLOCK(*item_ref) && DATA_FREEABLE(*item_ref) && CHILDLESS(*item_ref))
+__CPROVER_assigns(ALLOC_GHOSTS, *item_ref)
+__CPROVER_frees(*item_ref)
+__CPROVER_frees(HAS_DATA_BLOCK(*item_ref) : (*item_ref)->data)
+__CPROVER_ensures(*item_ref == NULL && g_malloc_calls == OLD(g_malloc_calls) && g_realloc_calls == OLD(g_realloc_calls) &&
+                  g_refused == OLD(g_refused) && g_last_req == OLD(g_last_req))
+__CPROVER_ensures(g_live == OLD(g_live) - 1 - (((OLD((*item_ref)->type) == CBOR_TYPE_BYTESTRING || OLD((*item_ref)->type) == CBOR_TYPE_STRING || OLD((*item_ref)->type) == CBOR_TYPE_ARRAY || OLD((*item_ref)->type) == CBOR_TYPE_MAP || OLD((*item_ref)->type) == CBOR_TYPE_TAG) && OLD((*item_ref)->data) != NULL) ? 1 : 0));
+
+/* Hereditary variant of cbor_decref for a parent that gives up its reference to an item whose subtree it never
+ * looks at (the decoder's _cbor_builder_append): node header and ghosts in the frame, the subtree is the item's
+ * own business (A1).  Same role as cbor_intermediate_decref__child. */
+void cbor_decref__owned(cbor_item_t **item_ref)
+__CPROVER_requires(ALLOC_MODEL_BOUND && __CPROVER_rw_ok(item_ref, sizeof(cbor_item_t *)) && ITEM_RW(*item_ref) &&
+                   (*item_ref)->refcount >= 1 && HEAP_BLOCK(*item_ref))
+__CPROVER_assigns(ALLOC_GHOSTS, g_d, *item_ref, (*item_ref)->refcount)
+__CPROVER_frees((*item_ref)->refcount == 1 : *item_ref)
+__CPROVER_ensures(OLD((*item_ref)->refcount) > 1 ==>
+                  ((OLD(*item_ref))->refcount == OLD((*item_ref)->refcount) - 1 && *item_ref == OLD(*item_ref) &&
+                   g_live == OLD(g_live) && g_free_calls == OLD(g_free_calls)))
+__CPROVER_ensures(OLD((*item_ref)->refcount) == 1 ==> (*item_ref == NULL && g_free_calls > OLD(g_free_calls)))
+__CPROVER_ensures(g_malloc_calls == OLD(g_malloc_calls) && g_realloc_calls == OLD(g_realloc_calls) && g_refused == OLD(g_refused));
+
 void cbor_intermediate_decref__child(cbor_item_t *item)
 __CPROVER_requires(ALLOC_MODEL_BOUND && ITEM_RW(item) && item->refcount >= 1 && HEAP_BLOCK(item))
 __CPROVER_assigns(ALLOC_GHOSTS, item->refcount)
